@@ -162,8 +162,8 @@ def edge_failure(c, starts, crop_function, nb, prefill):
     return None
 
 
-def gen_edge(rng):
-    """disk touching distance from one or two borders; start positions anywhere in the capture range"""
+def gen_edge(rng, turn=None):
+    """disk touching distance from one or two borders (turn: which one, enumerated by the caller); start positions anywhere in the capture range"""
     for _ in range(50):
         c = gen(rng)
         if c is None or c['desc']['kind'] == 'UserTemplate' and False:
@@ -174,7 +174,7 @@ def gen_edge(rng):
         fy, fx = c['shape']
         if fy < 2 * R + 2 or fx < 2 * R + 2:
             continue
-        side = int(rng.integers(0, 8))
+        side = int(rng.integers(0, 8)) if turn is None else turn % 8
         py = {0: R, 1: fy - R - 1}.get(side % 4 if side < 4 else side - 4, int(rng.integers(R, fy - R)))
         px = {2: R, 3: fx - R - 1}.get(side % 4, int(rng.integers(R, fx - R)))
         if side >= 4:          # corners
@@ -497,12 +497,13 @@ def run(ctx):
             break
     # (S) disks close to the frame border (windows overhang the frame), both crop functions, fresh and used crop buffers
     for k in range(ctx.n(60, 600)):
-        c, starts = gen_edge(rng)
+        # every border / corner in turn, each with both crop functions, one or several crop buffers, fresh or used buffers
+        c, starts = gen_edge(rng, turn=k // 2)
         if c is None:
             continue
         cf = ('numba', 'slicing')[k % 2]
-        nb = int(rng.integers(1, len(starts) + 1))
-        prefill = bool(rng.integers(0, 2))
+        nb = 1 if (k // 16) % 2 == 0 else int(rng.integers(1, len(starts) + 1))
+        prefill = bool((k // 32) % 2) or nb > 1
         fail = edge_failure(c, starts, cf, nb, prefill)
         ctx.count(2 * len(starts), key=('edge', json.dumps(c['desc'])[:200], c['shape'], c['p'], starts, cf, nb, prefill))
         ctx.hist('edge disk: crop function', cf)
